@@ -485,6 +485,8 @@ def run(rep, tier):
                 continue
         rep.call(fast_path, rep, prog, "C12.fast-path")
         rep.call(copy_cond, rep, prog, "C12.copy-cond")
+        from . import c11 as _c11
+        rep.call(_c11.source_columns, rep, prog, "C12.source-columns")
         rep.call(need_pass, rep, prog, "C12.need-pass")
         rep.call(none_none, rep, prog, "C12.none-none")
         rep.call(supersampling_guard, rep, prog, "C12.supersampling-guard")
